@@ -32,6 +32,10 @@ pub struct Scenario<S, SP: StateSpace<StateType = S>> {
     pub preconds_c04: bool,
     /// Some(T): solve is given the real time limit T and no iteration budget (C06 runs)
     pub timeout_ms: Option<u64>,
+    /// real-clock run whose result is nevertheless a function of the seed (feasible worlds, generous limit)
+    pub keep_seed: bool,
+    /// order-sensitive hash of the validity-callback trace (py mirror scenarios)
+    pub trace: Option<Arc<std::sync::Mutex<(u64, u64)>>>,
 }
 
 fn u01(v: u64) -> f64 {
@@ -310,6 +314,8 @@ pub fn build_table(r: &mut Sm, o: &GenOpts) -> Scenario<TState, TableSpace> {
         classes,
         preconds_c04: false,
         timeout_ms: None,
+        keep_seed: false,
+        trace: None,
     }
 }
 
@@ -555,6 +561,8 @@ where
         classes,
         preconds_c04: true,
         timeout_ms,
+        keep_seed: false,
+        trace: None,
     }
 }
 
@@ -829,4 +837,296 @@ pub fn build_css(r: &mut Sm, o: &GenOpts) -> Scenario<CompoundState, CompoundSta
         ],
         vec![],
     )
+}
+
+// ------------------------------------------------------------------------------------------
+// Python mirror scenarios (C19 / C20): everything the Python driver needs is in `desc.py`, with
+// every float as a hex bit pattern; callbacks use only comparisons and the space's own distance,
+// so that the Python and the Rust side compute bit-identical answers.
+
+pub fn hexj(x: f64) -> J {
+    J::Str(format!("{:016x}", x.to_bits()))
+}
+fn hexv(v: &[f64]) -> J {
+    J::Arr(v.iter().map(|x| hexj(*x)).collect())
+}
+
+pub fn fnv(h: u64, w: u64) -> u64 {
+    let mut h = h ^ w;
+    h = h.wrapping_mul(0x100000001b3);
+    h ^ (h >> 29)
+}
+
+pub struct PyKit<S> {
+    pub flat: Arc<dyn Fn(&S) -> Vec<f64>>,
+    pub coords: Arc<dyn Fn(&S) -> Vec<f64>>,
+    pub mk: Arc<dyn Fn(&mut Sm) -> (S, Vec<f64>)>,
+}
+
+#[allow(clippy::too_many_arguments)]
+pub fn py_world<S, SP>(
+    r: &mut Sm,
+    o: &GenOpts,
+    variant: &str,
+    space: SP,
+    space_desc: J,
+    extent: f64,
+    kit: PyKit<S>,
+    obst_dim: usize,
+    obst_lo: f64,
+    obst_hi: f64,
+    goal_radius: f64,
+) -> Scenario<S, SP>
+where
+    S: State + Clone + Key,
+    SP: StateSpace<StateType = S> + Clone + 'static,
+{
+    let kind = pick_kind(r, o.only_planner);
+    let q = |x: f64| (x * 64.0).round() / 64.0; // dyadic parameters: identical in Python and Rust
+    let params = Params {
+        kind,
+        maxd: q(extent * *r.pick(&[0.05, 0.1, 0.2, 0.5])).max(1.0 / 64.0),
+        bias: *r.pick(&[0.0, 0.0625, 0.25]),
+        radius: q(extent * *r.pick(&[0.15, 0.3, 0.6])).max(1.0 / 64.0),
+        seed: Some(r.next() % 100000),
+        build_secs: 0.05,
+    };
+    // obstacles: at most two boxes, generously away from nothing in particular; worlds stay feasible most of the time
+    let nb = r.below(3) as usize;
+    let mut boxes = vec![];
+    for _ in 0..nb {
+        let mut l = vec![];
+        let mut h = vec![];
+        for _ in 0..obst_dim {
+            let c = q(r.range(obst_lo, obst_hi));
+            let w = q(r.range(0.05, 0.2) * (obst_hi - obst_lo));
+            l.push(c - w / 2.0);
+            h.push(c + w / 2.0);
+        }
+        boxes.push(BoxObs { lo: l, hi: h });
+    }
+    // C20: a fault region (a box in the same coordinates) on which the Python callback raises / returns None /
+    // returns a non-bool; the Rust mirror (and the model) treat it as invalid
+    let fault: Option<(String, BoxObs)> = if o.faults {
+        let mut l = vec![];
+        let mut h = vec![];
+        for _ in 0..obst_dim {
+            let c = q(r.range(obst_lo, obst_hi));
+            let w = q(r.range(0.1, 0.35) * (obst_hi - obst_lo));
+            l.push(c - w / 2.0);
+            h.push(c + w / 2.0);
+        }
+        Some((r.pick(&["raise", "none", "nonbool", "str"]).to_string(), BoxObs { lo: l, hi: h }))
+    } else {
+        None
+    };
+    let goal_fault = o.faults && r.chance(0.3);
+    let trace = Arc::new(std::sync::Mutex::new((0xcbf29ce484222325u64, 0u64)));
+    let (start, start_flat, target, target_flat) = {
+        let inside = |c: &[f64]| boxes.iter().any(|b| b.contains(&c[..b.lo.len()])) || fault.as_ref().map(|(_, b)| b.contains(&c[..b.lo.len()])).unwrap_or(false);
+        let mut pick = |r: &mut Sm| {
+            let mut x = (kit.mk)(r);
+            for _ in 0..100 {
+                if !inside(&(kit.coords)(&x.0)) {
+                    break;
+                }
+                x = (kit.mk)(r);
+            }
+            x
+        };
+        let (s, sf) = pick(r);
+        let (t, tf) = pick(r);
+        (s, sf, t, tf)
+    };
+    let mut checkers = vec![];
+    for vi in 0..2u32 {
+        let bx = boxes.clone();
+        let ft = fault.clone();
+        let c = kit.coords.clone();
+        let fl = kit.flat.clone();
+        let tr = trace.clone();
+        let pred: Pred<S> = Box::new(move |s: &S| {
+            let x = c(s);
+            let ans = !(bx.iter().any(|b| b.contains(&x[..b.lo.len()])) || ft.as_ref().map(|(_, b)| b.contains(&x[..b.lo.len()])).unwrap_or(false));
+            let mut t = tr.lock().unwrap();
+            for w in fl(s) {
+                t.0 = fnv(t.0, w.to_bits());
+            }
+            t.0 = fnv(t.0, ans as u64);
+            t.1 += 1;
+            ans
+        });
+        checkers.push(Arc::new(LogChecker::new(vi + 1, pred)));
+    }
+    let mut problems = vec![];
+    for pi in 0..2u32 {
+        let sp = space.clone();
+        let tg = target.clone();
+        let c = kit.coords.clone();
+        let ft = fault.clone();
+        // Python: space.distance(target, state) <= goal_radius ; a raising is_satisfied counts as False
+        let pred: Pred<S> = Box::new(move |s: &S| {
+            if goal_fault {
+                if let Some((_, b)) = &ft {
+                    let x = c(s);
+                    if b.contains(&x[..b.lo.len()]) {
+                        return false;
+                    }
+                }
+            }
+            sp.distance(&tg, s) <= goal_radius
+        });
+        let tg2 = target.clone();
+        let sampler: GoalSampler<S> = Box::new(move |_rng| Ok(tg2.clone()));
+        problems.push(Problem {
+            starts: vec![start.clone()],
+            goal: Arc::new(LogGoal { id: pi + 1, pred, sampler }),
+        });
+    }
+    let script = if kind == PlannerKind::Prm {
+        vec![Call::Setup(0, 0), Call::Construct(u64::MAX), Call::Solve(u64::MAX)]
+    } else {
+        vec![Call::Setup(0, 0), Call::Solve(u64::MAX)]
+    };
+    let py = J::obj(vec![
+        ("variant", J::s(variant)),
+        ("planner", J::s(kind.name())),
+        ("max_distance", hexj(params.maxd)),
+        ("goal_bias", hexj(params.bias)),
+        ("radius", hexj(params.radius)),
+        ("seed", J::Int(params.seed.unwrap() as i128)),
+        ("space", space_desc),
+        ("start", hexv(&start_flat)),
+        ("target", hexv(&target_flat)),
+        ("goal_radius", hexj(goal_radius)),
+        ("boxes", J::Arr(boxes.iter().map(|b| J::obj(vec![("lo", hexv(&b.lo)), ("hi", hexv(&b.hi))])).collect())),
+        ("fault", match &fault { Some((k, b)) => J::obj(vec![("kind", J::s(k)), ("lo", hexv(&b.lo)), ("hi", hexv(&b.hi)), ("goal", J::Bool(goal_fault))]), None => J::Null }),
+        ("timeout", J::Num(1.0)),
+        ("build_secs", J::Num(params.build_secs)),
+    ]);
+    Scenario {
+        family: format!("py-{variant}"),
+        space: Arc::new(LogSpace::new(space)),
+        problems,
+        checkers,
+        params,
+        script,
+        desc: J::obj(vec![("py", py)]),
+        real_metric: true,
+        classes: if fault.is_some() { vec!["py_fault".into()] } else { vec![] },
+        preconds_c04: true,
+        timeout_ms: Some(1000),
+        keep_seed: true,
+        trace: Some(trace),
+    }
+}
+
+pub fn build_py_rv(r: &mut Sm, o: &GenOpts) -> Scenario<RealVectorState, RealVectorStateSpace> {
+    let space = RealVectorStateSpace::new(2, Some(vec![(0.0, 10.0), (0.0, 10.0)])).unwrap();
+    let kit = PyKit {
+        flat: Arc::new(|s: &RealVectorState| s.values.clone()),
+        coords: Arc::new(|s: &RealVectorState| s.values.clone()),
+        mk: Arc::new(|r: &mut Sm| {
+            let v = vec![(r.range(0.5, 9.5) * 64.0).round() / 64.0, (r.range(0.5, 9.5) * 64.0).round() / 64.0];
+            (RealVectorState::new(v.clone()), v)
+        }),
+    };
+    let desc = J::obj(vec![("dim", J::Int(2)), ("bounds", J::Arr(vec![hexv(&[0.0, 10.0]), hexv(&[0.0, 10.0])]))]);
+    py_world(r, o, "rv", space, desc, 14.0, kit, 2, 1.0, 9.0, 0.75)
+}
+
+pub fn build_py_so2(r: &mut Sm, o: &GenOpts) -> Scenario<SO2State, SO2StateSpace> {
+    let space = SO2StateSpace::new(None).unwrap();
+    let kit = PyKit {
+        flat: Arc::new(|s: &SO2State| vec![s.value]),
+        coords: Arc::new(|s: &SO2State| vec![s.value]),
+        mk: Arc::new(|r: &mut Sm| {
+            let v = (r.range(-3.0, 3.0) * 64.0).round() / 64.0;
+            let s = SO2State::new(v);
+            (s.clone(), vec![v])
+        }),
+    };
+    py_world(r, o, "so2", space, J::obj(vec![("bounds", J::Null)]), PI, kit, 1, -2.5, 2.5, 0.25)
+}
+
+pub fn build_py_so3(r: &mut Sm, o: &GenOpts) -> Scenario<SO3State, SO3StateSpace> {
+    let space = SO3StateSpace::new(None).unwrap();
+    let kit = PyKit {
+        flat: Arc::new(|s: &SO3State| vec![s.x, s.y, s.z, s.w]),
+        coords: Arc::new(|s: &SO3State| {
+            let sg = if s.w < 0.0 { -1.0 } else { 1.0 };
+            vec![s.x * sg, s.y * sg]
+        }),
+        mk: Arc::new(|r: &mut Sm| {
+            let q = quat_from(r);
+            (q.clone(), vec![q.x, q.y, q.z, q.w])
+        }),
+    };
+    py_world(r, o, "so3", space, J::obj(vec![]), 0.5 * PI, kit, 2, -0.7, 0.7, 0.3)
+}
+
+pub fn build_py_se2(r: &mut Sm, o: &GenOpts) -> Scenario<SE2State, SE2StateSpace> {
+    let w = *r.pick(&[0.5, 1.0]);
+    let space = SE2StateSpace::new(w, Some(vec![(0.0, 10.0), (0.0, 10.0), (-PI, PI)])).unwrap();
+    let kit = PyKit {
+        flat: Arc::new(|s: &SE2State| vec![s.get_x(), s.get_y(), s.get_yaw()]),
+        coords: Arc::new(|s: &SE2State| vec![s.get_x(), s.get_y()]),
+        mk: Arc::new(|r: &mut Sm| {
+            let v = vec![(r.range(0.5, 9.5) * 64.0).round() / 64.0, (r.range(0.5, 9.5) * 64.0).round() / 64.0, (r.range(-3.0, 3.0) * 64.0).round() / 64.0];
+            (SE2State::new(v[0], v[1], v[2]), v)
+        }),
+    };
+    let desc = J::obj(vec![("weight", hexj(w)), ("bounds", J::Arr(vec![hexv(&[0.0, 10.0]), hexv(&[0.0, 10.0]), hexv(&[-PI, PI])]))]);
+    py_world(r, o, "se2", space, desc, 14.0, kit, 2, 1.0, 9.0, 0.75)
+}
+
+pub fn build_py_se3(r: &mut Sm, o: &GenOpts) -> Scenario<SE3State, SE3StateSpace> {
+    let w = *r.pick(&[0.5, 1.0]);
+    let space = SE3StateSpace::new(w, Some(vec![(0.0, 10.0), (0.0, 10.0), (0.0, 10.0)])).unwrap();
+    let kit = PyKit {
+        flat: Arc::new(|s: &SE3State| {
+            let q = s.get_rotation();
+            vec![s.get_x(), s.get_y(), s.get_z(), q.x, q.y, q.z, q.w]
+        }),
+        coords: Arc::new(|s: &SE3State| vec![s.get_x(), s.get_y()]),
+        mk: Arc::new(|r: &mut Sm| {
+            let v = [(r.range(0.5, 9.5) * 64.0).round() / 64.0, (r.range(0.5, 9.5) * 64.0).round() / 64.0, (r.range(0.5, 9.5) * 64.0).round() / 64.0];
+            let q = quat_from(r);
+            (SE3State::new(v[0], v[1], v[2], q.clone()), vec![v[0], v[1], v[2], q.x, q.y, q.z, q.w])
+        }),
+    };
+    let desc = J::obj(vec![("weight", hexj(w)), ("bounds", J::Arr(vec![hexv(&[0.0, 10.0]), hexv(&[0.0, 10.0]), hexv(&[0.0, 10.0])]))]);
+    py_world(r, o, "se3", space, desc, 17.0, kit, 2, 1.0, 9.0, 1.0)
+}
+
+pub fn build_py_css(r: &mut Sm, o: &GenOpts) -> Scenario<CompoundState, CompoundStateSpace> {
+    let w = *r.pick(&[0.5, 1.0]);
+    let r2 = RealVectorStateSpace::new(2, Some(vec![(0.0, 10.0), (0.0, 10.0)])).unwrap();
+    let so2 = SO2StateSpace::new(None).unwrap();
+    let subs: Vec<Box<dyn AnyStateSpace>> = vec![Box::new(r2), Box::new(so2)];
+    let space = CompoundStateSpace::new(subs, vec![1.0, w]);
+    fn get(s: &CompoundState) -> (f64, f64, f64) {
+        let a = s.components[0].as_any().downcast_ref::<RealVectorState>().unwrap();
+        let b = s.components[1].as_any().downcast_ref::<SO2State>().unwrap();
+        (a.values[0], a.values[1], b.value)
+    }
+    let kit = PyKit {
+        flat: Arc::new(|s: &CompoundState| {
+            let (x, y, t) = get(s);
+            vec![x, y, t]
+        }),
+        coords: Arc::new(|s: &CompoundState| {
+            let (x, y, _) = get(s);
+            vec![x, y]
+        }),
+        mk: Arc::new(|r: &mut Sm| {
+            let v = vec![(r.range(0.5, 9.5) * 64.0).round() / 64.0, (r.range(0.5, 9.5) * 64.0).round() / 64.0, (r.range(-3.0, 3.0) * 64.0).round() / 64.0];
+            (
+                CompoundState::new(vec![Box::new(RealVectorState::new(vec![v[0], v[1]])), Box::new(SO2State::new(v[2]))]),
+                v,
+            )
+        }),
+    };
+    let desc = J::obj(vec![("weights", hexv(&[1.0, w])), ("bounds", J::Arr(vec![hexv(&[0.0, 10.0]), hexv(&[0.0, 10.0])]))]);
+    py_world(r, o, "compound", space, desc, 14.0, kit, 2, 1.0, 9.0, 0.75)
 }
